@@ -366,6 +366,7 @@ func runC13(c *core.Ctx) {
 			}
 		}
 	}
+	c13AfterRefused(c)
 	c.R.Bound = fmt.Sprintf("%d accepted-side schemas (bases + valid edits); all directive-use digraphs over 3 directives (thorough 4) and 2 directives x 2 arguments; full rule catalogue at every site of the bases (thorough: + every 7th variant)", len(subjects))
 	if !completed {
 		c.Cap("deadline reached")
@@ -413,4 +414,67 @@ func mentionsAny(text, offenders string) bool {
 		}
 	}
 	return false
+}
+
+// ---- the verdict on a document does not depend on a load that was REFUSED before it: a refused load that extended an object,
+// an enum and an input type (two new members each) and failed for another reason, then documents whose well-formedness hangs on
+// exactly those member names - accepted / refused as on a root that never saw the refused load, and with the same result.
+func c13AfterRefused(c *core.Ctx) {
+	const base = "interface Legged { legs: Int }\ntype Dog { name: String }\nenum Level { LOW HIGH }\ninput Opt { a: Int }\n" +
+		"directive @tag(level: Level = LOW, opt: Opt) on OBJECT\ntype Query { dog: Dog }\n"
+	const ext = "extend type Dog { legs: Int tail: Int }\nextend enum Level { EXTREME MID }\nextend input Opt { b: Int c: Int }\n"
+	refused := []string{ext + "extend type Nowhere { x: Int }\n", ext + "type __Bad { x: Int }\n", ext + "extend type Dog { name: String }\n", "type Extra { e: Int }\n" + ext + "extend enum Level { LOW }\n"}
+	thirds := []string{
+		"extend type Dog implements Legged\n", "type Cat @tag(level: EXTREME) { n: Int }\n", "extend enum Level { EXTREME }\n", "extend type Dog { legs: Int }\n",
+		"type Cat @tag(opt: {b: 1}) { n: Int }\n", "extend input Opt { b: Int }\n", "extend type Dog { tail: Int }\n", "type Cat @tag(level: MID) { n: Int }\n",
+		"type Cat @tag(opt: {c: 1}) { n: Int }\n", "extend type Dog { legs: Int }\nextend type Dog implements Legged\n", "type Extra { e: Int }\n",
+	}
+	for ri, rf := range refused {
+		for ti, third := range thirds {
+			if !c.OwnsIdx(1<<44 + int64(ri*100+ti)) {
+				continue
+			}
+			c.Eval()
+			c.R.Distinct++
+			c.Nontrivial()
+			var errRefused, errAfter, errFresh error
+			var sdlAfter, sdlFresh string
+			pi := core.Safe(func() {
+				r1 := ggql.NewRoot(c16Dummy{})
+				if err := r1.ParseString(base); err != nil {
+					panic(core.EngineError{Msg: "C13 after-refused base refused: " + err.Error()})
+				}
+				errRefused = r1.ParseString(rf)
+				errAfter = r1.ParseString(third)
+				sdlAfter = r1.SDL(false, true)
+				r2 := ggql.NewRoot(c16Dummy{})
+				_ = r2.ParseString(base)
+				errFresh = r2.ParseString(third)
+				sdlFresh = r2.SDL(false, true)
+			})
+			d := map[string]interface{}{"first_load": base, "refused_load": rf, "third_load": third, "verdict_after_the_refused_load": fmt.Sprint(errAfter), "verdict_without_it": fmt.Sprint(errFresh)}
+			attrs := map[string]string{"part": "after-a-refused-load", "route": "sdl"}
+			switch {
+			case pi != nil:
+				d["panic"] = pi.Value
+				c.Violation("panic", map[string]string{"site": pi.Site, "class": pi.Class, "route": "sdl"}, d)
+			case errRefused == nil:
+				panic(core.EngineError{Msg: "C13 after-refused: the refused load was accepted:\n" + rf})
+			case (errAfter == nil) != (errFresh == nil):
+				kind := "rejected-valid"
+				if errAfter == nil {
+					kind = "accepted-invalid"
+				}
+				d["diff"] = "the verdict on the third load depends on the refused load before it"
+				c.Outcome("after-refused-verdict-differs")
+				c.Violation(kind, attrs, d)
+			case sdlAfter != sdlFresh:
+				d["diff"] = firstLineDiff(sdlFresh, sdlAfter)
+				c.Outcome("after-refused-schema-differs")
+				c.Violation("canon-diff", attrs, d)
+			default:
+				c.Outcome("after-refused-agree")
+			}
+		}
+	}
 }
